@@ -319,6 +319,50 @@ func scenarioNewVersion(bound int) *vh.SchedScenario {
 	}}
 }
 
+// scenarioHeldVsNewVersion: version 1 of b is validated and held for p. One connection delivers p
+// (which releases b: finalize, move, log, companion clean-up), another one delivers the two parts
+// of version 2 of b at the same time. Whatever the interleaving, the receiver must end up with
+// version 2 of b in the final directory, logged with its own hash, and nothing of b in staging.
+func scenarioHeldVsNewVersion(bound int) *vh.SchedScenario {
+	return &vh.SchedScenario{Name: "held-version-released-vs-new-version", Bound: bound, Build: func(x *vrt.Sched) func(*vrt.Sched) (string, string, string) {
+		files := []*sFile{
+			{Key: "p1", Name: "p", Data: "PPPP", Cuts: []int64{0, 4}},
+			{Key: "b1", Name: "b", Prev: "p", Data: "CCCCDD", Cuts: []int64{0, 6}},
+			{Key: "b2", Name: "b", Prev: "p", Data: "ccccdd", Cuts: []int64{0, 4, 6}},
+		}
+		sw := newSchedWorld(files)
+		sw.recv("b1", 0, false) // sequential prefix: version 1 complete, validated, held
+		sw.w.settle()
+		x.Go("conn1", func() { sw.recv("p1", 0, false) })
+		x.Go("conn2", func() { sw.recv("b2", 0, false); sw.recv("b2", 1, false) })
+		return func(x *vrt.Sched) (string, string, string) {
+			defer sw.close()
+			if x.Deadlock != "" || x.Diverged != "" {
+				return "", "", ""
+			}
+			final, log, stage := sw.finish()
+			if v := sw.c01FinalOracle(final, log); v != "" {
+				return v, sw.class(), ""
+			}
+			want := "b " + sw.files["b2"].hash()
+			have := false
+			for _, f := range final {
+				have = have || f == want
+			}
+			if !have {
+				var left []string
+				for _, e := range stage {
+					if !e.Dir {
+						left = append(left, e.Path)
+					}
+				}
+				return fmt.Sprintf("both parts of version 2 of b were acknowledged (errors %v) and its predecessor p was delivered, yet version 2 is not in the final directory: final=%v log=%v staging=%v", sw.errs, final, log, left), sw.class(), ""
+			}
+			return "", "", fmt.Sprintf("final=%d log=%d", len(final), len(log))
+		}
+	}}
+}
+
 func runSchedScenarios(t *testing.T, prop, partName string, scs []*vh.SchedScenario, bound string) {
 	rep := vh.NewReport(prop, partName)
 	defer rep.Write()
@@ -344,9 +388,12 @@ func TestC09Sched(t *testing.T) {
 
 func TestC01Sched(t *testing.T) {
 	b := 2
-	runSchedScenarios(t, "C01", "concurrent connections, new version during validation (E-SCHED)", []*vh.SchedScenario{
-		scenarioNewVersion(b), scenarioTwoParts(false, b),
-	}, fmt.Sprintf("all interleavings with <= %d preemptions of: last part of version 1 of a file on one connection, both parts of a corrupted version 2 (same name and size) on another, with the stage's validators and finalizer", b))
+	bh := 1 // the held-file scenario has many more scheduling points (finalizer, timers): thorough tier only
+	scs := []*vh.SchedScenario{scenarioNewVersion(b), scenarioTwoParts(false, b)}
+	if vh.Thorough() {
+		scs = append(scs, scenarioHeldVsNewVersion(bh))
+	}
+	runSchedScenarios(t, "C01", "concurrent connections, new version during validation (E-SCHED)", scs, fmt.Sprintf("all interleavings with <= %d preemptions of: last part of version 1 of a file on one connection, both parts of a corrupted version 2 (same name and size) on another, with the stage's validators and finalizer; and of the release of a held version (its predecessor arrives on one connection) against the two parts of a new version of the held file on another (thorough tier only, <= %d preemption)", b, bh))
 }
 
 // ---------------------------------------------------------------- C20: cleaning concurrent with a transfer
